@@ -153,7 +153,7 @@ class FakeNode(object):
     # rows ------------------------------------------------------------------------
     def local_row(self):
         return {'key': 'local', 'cluster_name': 'simcluster', 'data_center': self.dc, 'rack': self.rack,
-                'partitioner': MURMUR3, 'release_version': self.release, 'schema_version': self.schema_version,
+                'partitioner': self.cluster.partitioner, 'release_version': self.release, 'schema_version': self.schema_version,
                 'tokens': self.tokens, 'host_id': self.host_id, 'rpc_address': self.addr,
                 'broadcast_address': self.addr, 'listen_address': self.addr, 'cql_version': '3.4.5',
                 'native_protocol_version': str(max(self.versions))}
@@ -491,6 +491,7 @@ class FakeCluster(object):
         self.members = []
         self.keyspaces = dict(spec.get('keyspaces') or {'ks1': {'class': 'org.apache.cassandra.locator.SimpleStrategy',
                                                                 'replication_factor': '2'}})
+        self.partitioner = spec.get('partitioner', MURMUR3)
         self.scripts = {}            # rid -> list of behaviours (consumed in arrival order)
         self.arrivals = {}
         self.decode_errors = []
